@@ -68,3 +68,98 @@ CLAIMS["C20"] = {
     "note": "Scans over millions of entries are input-proportional loops and are not unwound: wrap logic is decided on the "
             "small window, offsets on the full 32-bit range; multi-TiB devices are not driven through the API.",
 }
+
+CLAIMS["C02"] = {
+    "text": "Bounded model checking, one-step induction: every File operation (read, write incl. allocation, seek with any "
+            "64-bit argument, truncate, flush) is decided from an arbitrary state satisfying the File representation invariant, "
+            "against an array-with-cursor model, and shown to re-establish the invariant; payload placement is tracked by an "
+            "arbitrary watched device address. Chain free/truncate on a fully symbolic FAT at table level.",
+    "note": "Cursor cluster index is case-split (first/middle/last cluster, offset 0, empty file); 512-byte clusters; chain <= 3 "
+            "clusters (fragmented); two files interleaved follows from the frame conditions (a step touches only its own chain "
+            "and free clusters), not from a two-handle run. MAX_FILE_SIZE edge not constructed.",
+}
+CLAIMS["C03"] = {
+    "text": "Bounded model checking of structural-invariant preservation per mutating unit: alloc/free/truncate keep a fully "
+            "symbolic FAT well-formed (in-range, acyclic, no cross-link, links only to allocated clusters) and change exactly "
+            "the specified entries; File::truncate cuts chains to ceil(size/cluster) and empties own no cluster; long-name runs "
+            "produced by the generator are complete, ordered, padded and checksummed per an independent slot parser.",
+    "note": "Out: cross-structure facts that need the whole image (each chain referenced by exactly one live entry, duplicate "
+            "names, dot/dot-dot entries, slots after the end marker) - Dir-level operations are beyond CBMC's reach here (C01).",
+}
+CLAIMS["C04"] = {
+    "text": "Bounded model checking at the (de)serialisation boundary: 32-byte slots (all 2^256 contents) decode to the "
+            "specification's fields and re-encode identically; FS-info sector layout and round trip; long-name generator output "
+            "parsed independently and decoded back; flush/drop hand the pending entry to the device then flush it; extents = "
+            "chain mapped to device offsets.",
+    "note": "Remount of a whole image and 'whatever a session did' (composition of calls) are outside; the encoder/decoder "
+            "symmetry risk is addressed by an independent reference decoder in the harness, not by a second mount.",
+}
+CLAIMS["C08"] = {
+    "text": "Bounded model checking of the read path's decoders on arbitrary foreign encodings: FAT entry classification for "
+            "every raw value and width (all EOC markers, FAT32 high nibble), active-table selection, fragmented/backward chains, "
+            "slot classification, short-name decoding (0x05, lower-case flags), first-cluster width; writes change only the "
+            "addressed entry/copies.",
+    "note": "Decoder-level: listings of generated whole images vs. ground truth are not run; OEM code page conversion is the "
+            "library's default lossy converter.",
+}
+CLAIMS["C09"] = {
+    "text": "Solver-driven single-fault injection: the failing device call index is a symbolic variable; for table-level, "
+            "FileSystem-level and File-level operations every fault position yields Error::Io carrying the device's error token, "
+            "no masking as another kind, and termination within a device-call budget (CBMC path mode, concrete pre-states).",
+    "note": "Out: multi-fault schedules; Dir-level operations (create/remove/rename/iteration) - beyond reach (C01); "
+            "destructor-issued calls are exempt per the property and are not driven.",
+}
+CLAIMS["C11"] = {
+    "text": "Bounded model checking of where bytes land: cluster->byte offsets inside the volume for every accepted geometry, "
+            "DiskSlice bounds and replicated writes, File::write's single payload write inside the current/fresh cluster, zeroing "
+            "exactly the new cluster, entry write-back exactly 32 bytes at its position, status update exactly one byte, FS-info "
+            "exactly its sector.",
+    "note": "Per-unit write logs, not an ownership map of a whole image; directory-cluster writes by Dir operations are outside.",
+}
+CLAIMS["C13"] = {
+    "text": "Bounded model checking of the latch invariant (entry clean, FS-info clean, status byte as at mount): each read-only "
+            "unit (File::read, seek, stats, read_status_flags, flush, drop, unmount) issues no write from a state satisfying it "
+            "and preserves it; only stats() on an unknown count may set the FS-info latch (the documented exception).",
+    "note": "Directory iteration and label lookup are not driven (Dir level, see C01); access-date updating off unless stated.",
+}
+CLAIMS["C14"] = {
+    "text": "Bounded model checking of the flush path: after File::flush / drop returns, the pending directory entry (size, first "
+            "cluster, timestamps; witness byte over all 32 bytes) has been written at its position and the device flush was "
+            "issued after the last write; FAT and data writes are issued synchronously by File::write (no cache).",
+    "note": "The crash model is reduced to: no library-side write cache except the entry editor and FS-info; replay of "
+            "truncated write logs into images + remount is not encoded (trusted reduction, see DESIGN.md).",
+}
+CLAIMS["C15"] = {
+    "text": "Bounded model checking of name handling: validation decided for every UTF-8 string <= 4 bytes (all BMP code points) "
+            "and at the exact length boundaries, short-name derivation total on every string <= 5 bytes (found the empty / "
+            "multi-byte panic), long names encoded to slots and decoded back unit for unit, ASCII case folding exact.",
+    "note": "Out: Unicode case folding of non-ASCII characters (char::to_uppercase tables are std's), lookup through Dir (C01); "
+            "names longer than 39 units only through the length harnesses and the inductive builder step.",
+}
+CLAIMS["C16"] = {
+    "text": "Bounded model checking of alias generation as lemmas over ALL collision states: produced bytes are always legal, an "
+            "alias never equals an entry already fed to the generator (uniqueness by induction over the scan), a retry clears "
+            "the bitmaps and succeeds (termination), and the checksum stored in long-name slots is the specification's.",
+    "note": "Names <= 5 bytes quick / <= 8 bytes thorough; the directory-scanning loop itself (Dir::check_for_existence) is not "
+            "driven (C01).",
+}
+CLAIMS["C17"] = {
+    "text": "Bounded model checking of decoding totality: any 32-byte slot, any short name, any date/time words decode without "
+            "panic; LongNameBuilder is decided by an inductive step from any invariant state (fixed-buffer build) plus all 2- and "
+            "3-slot sequences against an independent definition of a well-formed run (broken => short-name fallback, <= 255 units).",
+    "note": "In the alloc build the accepting path of the Vec-backed builder exhausts CBMC's memory (24-65 GB): there only "
+            "broken patterns, the 20-slot bound and the buffer contract are checked; the builder source is shared by both builds. "
+            "DirIter over a directory region is not driven.",
+}
+CLAIMS["C19"] = {
+    "text": "Bounded model checking of both feature builds against the same reference: long-name slot generation identical "
+            "(independent parser) with and without alloc; decoding in the fixed-buffer build equals the reference for all 2/3-slot "
+            "sequences; Vec-backed buffer honours the fixed buffer's contract; ASCII case folding identical with and without unicode.",
+    "note": "A cfg cannot vary inside one query: equality is by transitivity through the reference. Whole-image hashes and "
+            "names > 39 units are outside (inductive step only).",
+}
+NOT_APPLICABLE.pop("C01", None)
+NOT_APPLICABLE["C01"] = ("refinement over histories of path-taking public calls (create/open/list/remove/rename) is a whole-program run: one "
+                         "Dir::create_file with a concrete one-character name did not finish in 25 min / 13 min (path mode) in CBMC and the "
+                         "alloc-build long-name decoder alone exhausts 24-65 GB; no bound worth stating is reachable with this technique "
+                         "(unit lemmas it would rest on are checked under C15/C16/C17/C03)")
